@@ -46,6 +46,8 @@ class _Sandbox:
 
         self.conf = conf
         self.old_flip = conf.instance["general"]["fits"]["flip_for_ds9"]
+        self.old_nbo = conf.instance["general"]["structures"]["native_binned_only"]
+        self.old_configs = None
         conf.instance["general"]["fits"]["flip_for_ds9"] = self.flip
         self.cwd = os.getcwd()
         self.dir = tempfile.mkdtemp(prefix="case_", dir=_root())
@@ -56,7 +58,13 @@ class _Sandbox:
 
     def __exit__(self, *a):
         os.chdir(self.cwd)
+        # (round 5) configuration pushed during the case: back to the pinned list of config directories (the
+        # setter invalidates the merged dictionary), then the two values this module touches — also when the
+        # case raised
+        if self.old_configs is not None:
+            self.conf.instance.configs = self.old_configs
         self.conf.instance["general"]["fits"]["flip_for_ds9"] = self.old_flip
+        self.conf.instance["general"]["structures"]["native_binned_only"] = self.old_nbo
         # astropy file handles opened by the readers are closed by their finalisers (HDUList objects sit in
         # reference cycles): a full collection every few cases keeps the number of open handles small
         # without paying ~30 ms per case
@@ -68,6 +76,33 @@ class _Sandbox:
 
     def set_flip(self, flip):
         self.conf.instance["general"]["fits"]["flip_for_ds9"] = bool(flip)
+
+    def set_conf(self, flip, nbo, via):
+        """(round 5, R5-D) put both configuration values the anchored code reads in force, either by item
+        assignment on the live configuration (what `autoconf.conf.with_config` does) or by pushing a
+        configuration directory (`conf.instance.push`, which rebuilds the merged dictionary: every section
+        object handed out before is stale afterwards)"""
+        flip, nbo = bool(flip), bool(nbo)
+        if via == "push":
+            d = os.path.join(_root(), f"conf_{int(flip)}{int(nbo)}")
+            if not os.path.isdir(d):
+                os.makedirs(d, exist_ok=True)
+                with open(os.path.join(d, "general.yaml"), "w") as f:
+                    f.write(f"fits:\n  flip_for_ds9: {str(flip).lower()}\n"
+                            f"structures:\n  native_binned_only: {str(nbo).lower()}\n")
+            if self.old_configs is None:
+                self.old_configs = list(self.conf.instance.configs)
+            # the directory may already be in the list (further down): start from the pinned list so that it
+            # becomes the first one again
+            self.conf.instance.configs = list(self.old_configs)
+            self.conf.instance.push(new_path=d)
+        else:
+            self.conf.instance["general"]["fits"]["flip_for_ds9"] = flip
+            self.conf.instance["general"]["structures"]["native_binned_only"] = nbo
+        got = (self.conf.instance["general"]["fits"]["flip_for_ds9"],
+               self.conf.instance["general"]["structures"]["native_binned_only"])
+        if got != (flip, nbo):
+            raise RuntimeError(f"harness: configuration not in force after set_conf({flip},{nbo},{via}): {got}")
 
     def path(self, comps, style):
         rel = os.path.join(*comps)
@@ -90,6 +125,95 @@ def _as_form(vals, form):
     if form == "float32":
         return np.array(f, dtype="float32")
     return np.array(f, dtype="float64")
+
+
+# (round 5, R5-C) one and the same ndarray in another memory layout / dtype / container.  Every form denotes
+# the same numbers; the integer / float32 forms are only generated for values those dtypes hold exactly.
+LAYOUT_FLOAT = ["fortran", "transposed", "strided", "negstride", "readonly", "bigendian", "list"]
+LAYOUT_DTYPE = ["float32", "int64", "int32", "int16", "uint8", "uint16", "bigendian_f4", "bigendian_i4"]
+MASK_FORMS_2D = ["fortran", "transposed", "strided", "negstride", "readonly", "int64", "uint8", "float64", "list",
+                 "invert_ctor", "mask_obj", "mask_obj_origin0"]
+MASK_FORMS_1D = ["strided", "negstride", "readonly", "int64", "uint8", "float64", "list", "invert_ctor"]
+
+
+def _layout(arr, form):
+    arr = np.asarray(arr)
+    if form in (None, "plain"):
+        return arr.copy()
+    if form == "fortran":
+        return np.asfortranarray(arr)
+    if form == "transposed":  # a transposed VIEW of a C-contiguous buffer
+        return arr.T.copy().T
+    if form == "strided":  # every second element of a larger buffer filled with other numbers
+        big = np.full(tuple(2 * s + 1 for s in arr.shape), 1 if arr.dtype == bool else 55, dtype=arr.dtype)
+        view = big[tuple(slice(1, 2 * s + 1, 2) for s in arr.shape)]
+        view[...] = arr
+        return view
+    if form == "negstride":
+        rev = tuple(slice(None, None, -1) for _ in arr.shape)
+        return arr[rev].copy()[rev]
+    if form == "readonly":
+        c = arr.copy()
+        c.setflags(write=False)
+        return c
+    if form == "bigendian":
+        return arr.astype(">f8")
+    if form == "bigendian_f4":
+        return arr.astype(">f4")
+    if form == "bigendian_i4":
+        return arr.astype(">i4")
+    if form == "list":
+        return arr.tolist()
+    return arr.astype(form)
+
+
+def _scribble(x, how, seen=None):
+    """(round 5, R5-B) overwrite, in place, everything mutable reachable from an object the API returned or was
+    given: ndarrays (also the ones inside autoarray structures, their masks and header objects), astropy HDUs
+    (data and PIXSCALE cards), dicts.  Never raises; read-only buffers are left alone."""
+    seen = seen if seen is not None else set()
+    if x is None or isinstance(x, (str, bytes, int, float, bool, tuple)) or id(x) in seen:
+        return
+    seen.add(id(x))
+    try:
+        if isinstance(x, np.ndarray):
+            if x.flags.writeable and x.size:
+                if x.dtype == bool:
+                    x[...] = ~x
+                elif x.dtype.kind == "f":
+                    if how == "nan":
+                        x[...] = np.nan
+                    else:
+                        x += 1.0
+                elif x.dtype.kind in "iu":
+                    x[...] = 7 if how == "nan" else x + 1
+            return
+        if isinstance(x, (list,)):
+            for v in x:
+                _scribble(v, how, seen)
+            return
+        if hasattr(x, "header") and hasattr(x, "data") and not hasattr(x, "_array"):  # an astropy HDU
+            d = x.data
+            if d is not None:
+                _scribble(np.asarray(d) if not isinstance(d, np.ndarray) else d, how, seen)
+            for k in [k for k in x.header if str(k).startswith("PIXSCALE")]:
+                x.header[k] = 12345.6789
+            return
+        if isinstance(x, dict) or type(x).__name__ == "Header" and hasattr(x, "cards"):
+            for k in list(x.keys()):
+                if str(k).startswith("PIXSCALE"):
+                    x[k] = 12345.6789
+            return
+        if hasattr(x, "_array"):  # an autoarray structure / mask
+            _scribble(x._array, how, seen)
+            for name in ("mask", "header"):
+                _scribble(getattr(x, name, None), how, seen)
+            return
+        for name in ("header_sci_obj", "header_hdu_obj"):  # autoarray's Header wrapper
+            if hasattr(x, name):
+                _scribble(getattr(x, name), how, seen)
+    except Exception:
+        pass
 
 
 def _bits2d(mj):
@@ -370,6 +494,11 @@ class _HistSim:
                 raise _Invalid("no such file")
             return "IndexError"
         if op == "set_flip":
+            self.flip = bool(st["flip"])
+            return None
+        if op == "set_conf":
+            # (round 5) both configuration values set at once (by item assignment or by a pushed config
+            # directory).  `native_binned_only` changes how NEW objects are stored, never what is written
             self.flip = bool(st["flip"])
             return None
         if op == "decoy":
@@ -917,6 +1046,510 @@ class C16(PropertyCheck):
                    "read": rng.randrange(2), "scales": self._near_scales(rng), "reader": "array2d"}
         # 8. (round 4) reuse histories on real objects
         yield from self._gen_hist(tier, rng)
+        # 9.-13. (round 5) decades / near-degenerate ingredients, memory layouts and containers, rarely combined
+        # options, ownership histories, always-on large cases
+        yield from self._gen_decades(tier, rng)
+        yield from self._gen_layouts(tier, rng)
+        yield from self._gen_options(tier, rng)
+        yield from self._gen_own(tier, rng)
+        yield from self._gen_always_big(tier, rng)
+
+    # ================================================================== round 5: DECADES stream (R5-A, R5-E)
+    # Ordinary cases with the values (the whole world) or one ingredient multiplied by 2^k — exact, so every
+    # comparison stays exact —, k over the decades 2^-45 … 2^45 and, since nothing here is ever squared, out to
+    # 2^±1000 (≈ 1e±301); nearly-uniform / nearly-zero / nearly flip-symmetric contents (relative differences
+    # 2^-20 … 2^-44: far outside 1e-9, inside the default tolerances of np.allclose / np.isclose); pixel
+    # scales over the decimal decades 1e-150 … 1e150, isotropic, nearly isotropic and anisotropic; origins far
+    # from zero.  A hidden absolute tolerance, an `allclose` shortcut or an overflow shows as a wrong value.
+    DEC_K = [-45, -40, -33, -27, -20, -13, -7, 7, 13, 20, 27, 33, 40, 45]
+    DEC_K_EXT = [-1000, -900, -600, -498, -300, -150, -100, 100, 150, 300, 498, 600, 900, 1000]
+    FAR_ORIGINS = [["100000", "-300000"], [q(Fraction(2) ** 40), q(Fraction(1, 2 ** 40))], ["-72500000", "1"],
+                   [q(Fraction(1.0e5) + Fraction(1, 2)), q(Fraction(-1.0e-5))]]
+    DEC_EXPS = [-150, -45, -13, -9, -6, -3, 0, 3, 6, 9, 13, 45, 150]
+
+    @staticmethod
+    def _pow2(vals, k):
+        """the numbers times 2^k as exact "p/q" strings; None if one of them is not a double any more"""
+        f = Fraction(2) ** k
+        out = []
+        for v in vals:
+            x = Fraction(v) * f
+            try:
+                if Fraction(float(x)) != x or (x != 0 and abs(float(x)) < 2.3e-308):
+                    return None
+            except OverflowError:
+                return None
+            out.append(q(x))
+        return out
+
+    def _dec_scale_case(self, c, k):
+        """values (and what a junk case holds under its mask) of an array case times 2^k"""
+        v = self._pow2(c["values"], k)
+        if v is None:
+            return None
+        c = {**c, "values": v, "decade": k}
+        if c.get("junk"):
+            js, jv = self._pow2([c["junk_shift"]], k), self._pow2(c["junk_values"], k)
+            if js is None or jv is None:
+                return None
+            c["junk_shift"], c["junk_values"] = js[0], jv
+        return c
+
+    def _dec_origin(self, rng, c):
+        if rng.random() < 0.6:
+            c["origin"] = list(rng.choice(self.FAR_ORIGINS))
+        r = rng.random()
+        if r < 0.4:
+            c["read_origin"] = list(rng.choice(self.FAR_ORIGINS))
+        elif r < 0.6:
+            c["read_origin"] = ["0", "0"]
+        return c
+
+    def _near_uniform(self, rng, n, p=None):
+        """n pairwise different doubles c·(1 + j·2^-p): equal for every default `allclose`, not equal"""
+        p = p or rng.choice([20, 30, 40, 44])
+        c = rng.choice([Fraction(3, 2), Fraction(-5), Fraction(1), Fraction(7, 4), Fraction(-1, 8)])
+        js = rng.sample(range(0, max(n, 1) + 3), n)
+        return [c * (1 + Fraction(j, 2 ** p)) for j in js]
+
+    def _near_zero(self, rng, n):
+        qq = rng.choice([30, 40, 60, 200])
+        out = [Fraction(rng.choice([1, -1]) * (j + 1), 2 ** qq) for j in rng.sample(range(0, n + 3), n)]
+        if n >= 3 and rng.random() < 0.5:
+            out[rng.randrange(n)] = Fraction(0)
+        return out
+
+    def _decimal_scales(self, rng, e, kind):
+        """pixel scales at the decimal decade 10^e whose shortest repr a FITS card holds digit for digit"""
+        def d(mant):
+            x = float(f"{mant}e{e}")
+            return x if _card_safe(x) else None
+        a = d(rng.choice(["1", "2.5", "7", "1.25"]))
+        if kind == "iso":
+            b = a
+        elif kind == "aniso":
+            b = d(rng.choice(["3", "1.5", "9.75"]))
+        else:  # nearly isotropic: relative difference 1e-6 … 1e-12
+            a = d("1")
+            b = d(rng.choice(["1.000001", "1.00000001", "1.0000000001", "1.000000000001", "0.999999999"]))
+        if a is None or b is None or (kind != "iso" and a == b):
+            return None
+        return [q(b), q(a)] if rng.random() < 0.5 else [q(a), q(b)]
+
+    def _gen_decades(self, tier, rng):
+        quick = tier == "quick"
+        reps = 1 if quick else 4
+
+        def small_mask(kind):
+            h, w = rng.randint(1, 4), rng.randint(1, 4)
+            if kind == "kernel2d" and rng.random() < 0.6:
+                return gen.full(h, w, False)
+            return self._structured_mask(rng, h, w)
+
+        def arr(tag, kind=None, style=None, **kw):
+            kind = kind or rng.choice(["array2d", "array2d", "kernel2d"])
+            m = small_mask(kind)
+            c = self._arr_case(rng, m, tag, kind=kind, **kw)
+            n = sum(1 for r in m for b in r if not b)
+            c["values"] = qlist(self._values(rng, n, style or rng.choice(["distinct", "dyadic"])))
+            return self._dec_origin(rng, c)
+
+        # 9a. the whole world / one ingredient times 2^k
+        for ks, tag in ((self.DEC_K, "dec_world"), (self.DEC_K_EXT, "dec_ext")):
+            for k in ks:
+                for _ in range(reps):
+                    c = self._dec_scale_case(arr(tag), k)
+                    if c:
+                        yield c
+                    m = self._structured_mask(rng, rng.randint(1, 4), rng.randint(2, 4))
+                    if not any(b for r in m for b in r):
+                        m[0][0] = True
+                    if all(b for r in m for b in r):
+                        m[0][1] = False
+                    c = self._dec_scale_case(self._dec_origin(rng, self._junk_arr_case(rng, m, tag + "_junk")), k)
+                    if c:
+                        yield c
+                    ln = rng.randint(1, 6)
+                    mask = [rng.random() < 0.35 for _ in range(ln)]
+                    if all(mask):
+                        mask[rng.randrange(ln)] = False
+                    v = self._pow2(self._values(rng, mask.count(False), "dyadic"), k)
+                    if v is not None:
+                        yield {"tag": tag + "_1d", "kind": "array1d", "flip": rng.random() < 0.5, "decade": k,
+                               "bits": "".join("1" if b else "0" for b in mask), "values": v,
+                               "scale": self._scales(rng, False)[0], "store_native": rng.random() < 0.5,
+                               "path_style": rng.choice(["abs", "rel", "bare", "nested"])}
+        # 9b. every value at its own decade
+        for _ in range(6 * reps):
+            c = arr("dec_mixed")
+            vals = []
+            for v in c["values"]:
+                vv = self._pow2([v], rng.choice(self.DEC_K + self.DEC_K_EXT + [0, 0]))
+                vals.append(vv[0] if vv else v)
+            c["values"] = vals
+            yield c
+        # 9c. nearly uniform / nearly zero / nearly flip-symmetric contents at several decades
+        for k in [0, -40, -20, 20, 40, -900, 900]:
+            for _ in range(reps):
+                for what in ("uniform", "zero", "flipsym"):
+                    kind = rng.choice(["array2d", "kernel2d"])
+                    if what == "flipsym":
+                        h, w = rng.choice([2, 3, 4]), rng.randint(1, 3)
+                        half = [[Fraction(v, 4) for v in gen.distinct_ints(rng, w)] for _ in range((h + 1) // 2)]
+                        rows = [half[min(y, h - 1 - y)][:] for y in range(h)]
+                        y, x = rng.randrange(h), rng.randrange(w)
+                        rows[y][x] = rows[y][x] * (1 + Fraction(rng.choice([1, -1]), 2 ** rng.choice([20, 30, 40])))
+                        if h % 2 == 1 and y == h // 2:  # the middle row is its own mirror image
+                            y2 = 0
+                            rows[y2][x] = rows[y2][x] * (1 + Fraction(1, 2 ** 30))
+                        c = self._arr_case(rng, gen.full(h, w, False), "dec_near_flipsym", kind=kind,
+                                           flip=rng.random() < 0.7)
+                        c["values"] = qlist([v for r in rows for v in r])
+                    else:
+                        m = small_mask(kind)
+                        n = sum(1 for r in m for b in r if not b)
+                        c = self._arr_case(rng, m, "dec_near_" + what, kind=kind)
+                        c["values"] = qlist(self._near_uniform(rng, n) if what == "uniform"
+                                            else self._near_zero(rng, n))
+                    c = self._dec_scale_case(c, k if what != "zero" else (k if abs(k) < 100 else 0))
+                    if c:
+                        yield self._dec_origin(rng, c)
+            ln = rng.randint(2, 7)
+            mask = [rng.random() < 0.3 for _ in range(ln)]
+            if all(mask):
+                mask[0] = False
+            v = self._pow2(self._near_uniform(rng, mask.count(False)) if rng.random() < 0.5
+                           else self._near_zero(rng, mask.count(False)), k if abs(k) < 100 else 0)
+            if v is not None:
+                yield {"tag": "dec_near_1d", "kind": "array1d", "flip": rng.random() < 0.5,
+                       "bits": "".join("1" if b else "0" for b in mask), "values": v,
+                       "scale": self._scales(rng, False)[0], "store_native": rng.random() < 0.5,
+                       "path_style": rng.choice(["abs", "rel", "bare", "nested"])}
+        # 9d. pixel scales over the decimal decades
+        k = 0
+        for e in self.DEC_EXPS:
+            for pk in ("iso", "near", "aniso"):
+                for _ in range(reps):
+                    sc = self._decimal_scales(rng, e, pk)
+                    if sc is None:
+                        continue
+                    k += 1
+                    obj = ["array2d", "mask2d", "kernel2d"][k % 3]
+                    h, w = rng.randint(1, 3), rng.randint(1, 3)
+                    if obj == "mask2d":
+                        c = self._mask_case(rng, self._structured_mask(rng, h, w), "dec_scales_mask")
+                    else:
+                        c = self._dec_origin(rng, self._arr_case(
+                            rng, self._structured_mask(rng, h, w) if obj == "array2d" else gen.full(h, w, False),
+                            "dec_scales_" + obj, kind=obj))
+                    c["scales"] = sc
+                    yield c
+            s1 = self._decimal_scales(rng, e, "iso")
+            if s1:
+                ln = rng.randint(1, 4)
+                yield {"tag": "dec_scales_1d", "kind": rng.choice(["array1d", "mask1d"]), "flip": rng.random() < 0.5,
+                       "bits": "0" * ln, "values": qlist(self._values(rng, ln, "dyadic")), "scale": s1[0],
+                       "store_native": False, "path_style": "abs"}
+        for e in (-150, -9, 9, 150):
+            arrays = []
+            for j in range(2):
+                m, _mk = gen.random_mask(rng, rng.randint(1, 3), rng.randint(1, 3))
+                nun = sum(1 for r in m for b in r if not b)
+                arrays.append({"mask": mask_json(m), "values": qlist(self._values(rng, nun, "dyadic")),
+                               "scales": self._decimal_scales(rng, e, "near") or ["1", "1"]})
+            yield {"tag": "dec_scales_multi_hdu", "kind": "multi_hdu", "flip": rng.random() < 0.5, "arrays": arrays,
+                   "read": rng.randrange(2), "scales": self._decimal_scales(rng, e, "aniso") or ["1", "2"],
+                   "reader": "array2d"}
+        # 9e. Imaging at the decades: data and noise map scaled independently, nearly uniform noise maps
+        for kd, kn in [(-45, 45), (40, -33), (-1000, 900), (600, -600), (0, -20), (-498, -498)] * reps:
+            h, w = rng.randint(1, 5), rng.randint(1, 5)
+            kh, kw = rng.choice([1, 3]), rng.choice([1, 3])
+            data = self._pow2(self._values(rng, h * w, "dyadic"), kd)
+            noise = self._pow2(self._near_uniform(rng, h * w, p=rng.choice([20, 30, 40])) if rng.random() < 0.6
+                               else [Fraction(v, 4) for v in gen.distinct_ints(rng, h * w, signed=False)], kn)
+            if data is None or noise is None:
+                continue
+            noise = [q(abs(Fraction(v))) for v in noise]
+            yield {"tag": "dec_imaging", "kind": "imaging", "flip": rng.random() < 0.5, "shape": [h, w],
+                   "data": data, "noise": noise, "psf_shape": [kh, kw], "scales": self._scales(rng),
+                   "path_style": rng.choice(["abs", "rel", "bare", "nested"]), "with_psf": rng.random() < 0.7,
+                   "victim": rng.choice(["data", "psf", "noise"])}
+
+    # ================================================================== round 5: LAYOUT stream (R5-C)
+    def _layout_values(self, rng, n, vform):
+        if vform in ("uint8", "uint16"):
+            return [Fraction(v) for v in rng.sample(range(0, 201), n)] if n else []
+        if vform in ("int64", "int32", "int16", "bigendian_i4"):
+            return [Fraction(v) for v in gen.distinct_ints(rng, n)] if n else []
+        return [Fraction(v, 8) for v in gen.distinct_ints(rng, n)] if n else []
+
+    def _gen_layouts(self, tier, rng):
+        reps = 1 if tier == "quick" else 3
+        k = 0
+        for _ in range(reps):
+            for vform in LAYOUT_FLOAT + LAYOUT_DTYPE:
+                for native_input in (True, False):
+                    if not native_input and vform in ("fortran", "transposed"):
+                        continue  # a 1-D slim vector has one layout
+                    for store_native in (True, False):
+                        k += 1
+                        kind = "kernel2d" if k % 4 == 0 else "array2d"
+                        h, w = rng.choice([(1, 1), (1, 3), (3, 1), (2, 3), (3, 2), (3, 4), (4, 3), (2, 2)])
+                        m = self._structured_mask(rng, h, w)
+                        n = sum(1 for r in m for b in r if not b)
+                        c = self._arr_case(rng, m, f"lay_{kind}_{vform}", kind=kind, flip=bool(k % 2))
+                        c["values"] = qlist(self._layout_values(rng, n, vform))
+                        c["store_native"] = store_native
+                        c["layout"] = {"v": vform, "m": MASK_FORMS_2D[k % len(MASK_FORMS_2D)] if k % 3 else None,
+                                       "native_input": native_input}
+                        if k % 7 == 0:
+                            c["layout"]["ctor"] = "wrapped_native" if native_input else "skip_mask"
+                        elif k % 11 == 0:
+                            c["layout"]["ctor"] = "skip_mask"
+                        if vform == "list" and not native_input and n == 0:
+                            continue  # an empty python list has no dtype to speak of
+                        if rng.random() < 0.3:
+                            s = rng.choice([Fraction(1), Fraction(3, 2), Fraction(0.05)])
+                            c["scales"] = [q(s), q(s)]
+                            c["scales_form"] = "float"
+                        c["via_open"] = True
+                        yield c
+            for i, mform in enumerate(MASK_FORMS_2D):
+                for flip in (False, True):
+                    h, w = rng.choice([(1, 1), (1, 3), (3, 1), (2, 3), (3, 2), (3, 4)])
+                    c = self._mask_case(rng, self._structured_mask(rng, h, w), "lay_mask2d_" + mform, flip=flip)
+                    c["mask_form"] = mform
+                    c["via_open"] = True
+                    yield c
+            for vform in [f for f in LAYOUT_FLOAT + LAYOUT_DTYPE if f not in ("fortran", "transposed")]:
+                for native_input in (True, False):
+                    k += 1
+                    ln = rng.randint(1, 6)
+                    mask = [rng.random() < 0.4 for _ in range(ln)]
+                    if all(mask):
+                        mask[rng.randrange(ln)] = False
+                    n = mask.count(False)
+                    if vform == "list" and not native_input and n == 0:
+                        continue
+                    c = {"tag": "lay_array1d_" + vform, "kind": "array1d", "flip": bool(k % 2),
+                         "bits": "".join("1" if b else "0" for b in mask),
+                         "values": qlist(self._layout_values(rng, n, vform)),
+                         "scale": self._scales(rng, False)[0], "store_native": bool(k % 3 == 0),
+                         "layout": {"v": vform, "m": MASK_FORMS_1D[k % len(MASK_FORMS_1D)] if k % 2 else None,
+                                    "native_input": native_input},
+                         "scale_form": rng.choice(["float", "tuple"]), "via_open": True,
+                         "path_style": rng.choice(["abs", "rel", "bare", "nested"])}
+                    if k % 5 == 0:
+                        c["layout"]["ctor"] = "wrapped"
+                    yield c
+            for mform in MASK_FORMS_1D:
+                ln = rng.randint(1, 6)
+                mask = [rng.random() < 0.5 for _ in range(ln)]
+                yield {"tag": "lay_mask1d_" + mform, "kind": "mask1d", "flip": rng.random() < 0.5,
+                       "bits": "".join("1" if b else "0" for b in mask), "scale": self._scales(rng, False)[0],
+                       "mask_form": mform, "scale_form": rng.choice(["float", "tuple"]), "via_open": True,
+                       "path_style": rng.choice(["abs", "rel", "bare", "nested"])}
+
+    # ================================================================== round 5: OPTIONS stream (R5-F)
+    # The optional parameters of the readers / constructors the property names, crossed with one another (full
+    # cross where it is small, pairwise otherwise), including explicit falsy values; the parameter lists are
+    # taken from the signatures at run time, so an option added later is at least passed at its default.
+    @staticmethod
+    def _pow2_sum_values(rng, n):
+        """n non-zero dyadic values whose sum is a positive power of two (so that normalising them is exact)"""
+        if n == 0:
+            return []
+        for _ in range(50):
+            vals = [Fraction(rng.choice([1, 2, 3, 5, 6, 7, -1, -2, 9, 11]), 8) for _ in range(n - 1)]
+            tot = rng.choice([Fraction(1, 2), Fraction(1), Fraction(2), Fraction(4), Fraction(8)])
+            last = tot - sum(vals, Fraction(0))
+            if last != 0:
+                return vals + [last]
+        return [Fraction(1)] + [Fraction(0)] * (n - 1)
+
+    def _gen_options(self, tier, rng):
+        quick = tier == "quick"
+        # 11a. Mask2D.from_fits: hdu x invert x resized_mask_shape x origin x flip x constructor `invert`
+        for hdu in (0, 1, 2):
+            for invert in (None, False, True):
+                for resized in (False, True):
+                    for origin in (None, ["0", "0"], self.FAR_ORIGINS[hdu]):
+                        for flip in (False, True):
+                            if quick and rng.random() < 0.45:
+                                continue
+                            masks = []
+                            for j in range(3):
+                                h, w = rng.randint(1, 4), rng.randint(1, 4)
+                                masks.append({"mask": mask_json(self._structured_mask(rng, h, w)),
+                                              "scales": self._scales(rng), "ctor_invert": rng.random() < 0.4})
+                            mh, mw = masks[hdu]["mask"]["h"], masks[hdu]["mask"]["w"]
+                            opts = {"hdu": hdu}
+                            if invert is not None:
+                                opts["invert"] = invert
+                            if origin is not None:
+                                opts["origin"] = origin
+                            if resized:
+                                opts["resized_mask_shape"] = [max(1, mh + rng.randint(-2, 3)),
+                                                              max(1, mw + rng.randint(-2, 3))]
+                            elif rng.random() < 0.3:
+                                opts["resized_mask_shape"] = None
+                            yield {"tag": "opt_mask2d", "kind": "opt_mask2d", "flip": flip, "masks": masks,
+                                   "scales": self._scales(rng), "opts": opts, "explicit_all": rng.random() < 0.3,
+                                   "path_style": rng.choice(["abs", "rel"])}
+        # 11b. Kernel2D: constructor normalize x store_native x flip x reader normalize x constructor route
+        for ctor in ("init", "no_mask"):
+            for ctor_norm in (None, False, True):
+                for store_native in (False, True):
+                    for read_norm in (None, False, True):
+                        for flip in (False, True):
+                            if quick and rng.random() < 0.4:
+                                continue
+                            h, w = rng.randint(1, 4), rng.randint(1, 4)
+                            m = gen.full(h, w, False) if ctor == "no_mask" or rng.random() < 0.4 \
+                                else self._structured_mask(rng, h, w)
+                            n = sum(1 for r in m for b in r if not b)
+                            if n == 0:
+                                continue
+                            c = {"tag": "opt_kernel", "kind": "opt_kernel", "flip": flip, "mask": mask_json(m),
+                                 "values": qlist(self._pow2_sum_values(rng, n)), "scales": self._scales(rng),
+                                 "store_native": store_native, "ctor": ctor,
+                                 "path_style": rng.choice(["abs", "rel", "bare", "nested"])}
+                            if ctor_norm is not None:
+                                c["ctor_normalize"] = ctor_norm
+                            if read_norm is not None:
+                                c["read_normalize"] = read_norm
+                            if rng.random() < 0.3:
+                                c["read_origin"] = list(rng.choice(self.FAR_ORIGINS + [["0", "0"]]))
+                            yield c
+        # 11c. Imaging: psf / use_normalized_psf / check_noise_map / which paths are given / hdu indices
+        combos = [(wp, unp, unit, cnm, pp, npth, route)
+                  for wp in (True, False) for unp in (None, True, False) for unit in (True, False)
+                  for cnm in (None, True, False) for pp in (True, False) for npth in (True, False)
+                  for route in ("separate", "combined")]
+        rng.shuffle(combos)
+        for (wp, unp, unit, cnm, pp, npth, route) in combos[: (36 if quick else len(combos))]:
+            h, w = rng.randint(1, 4), rng.randint(1, 4)
+            kh, kw = rng.choice([1, 3]), rng.choice([1, 3])
+            noise = [Fraction(v, 4) for v in gen.distinct_ints(rng, h * w, signed=False)]
+            if cnm is False and rng.random() < 0.7:
+                noise[rng.randrange(h * w)] = rng.choice([Fraction(0), Fraction(-3, 4)])
+            c = {"tag": "opt_imaging", "kind": "opt_imaging", "flip": rng.random() < 0.5, "shape": [h, w],
+                 "data": qlist(self._values(rng, h * w, rng.choice(["distinct", "dyadic", "special"]))),
+                 "noise": qlist(noise), "scales": self._scales(rng), "psf_path": pp, "noise_path": npth,
+                 "route": route, "hdus": rng.sample(range(5), 3),
+                 "path_style": rng.choice(["abs", "rel", "bare", "nested"])}
+            if wp:
+                vals = [v for r in _unit_kernel(kh, kw) for v in r] if unit \
+                    else self._pow2_sum_values(rng, kh * kw)
+                c["psf"] = {"shape": [kh, kw], "values": qlist(vals)}
+            if unp is not None:
+                c["use_normalized_psf"] = unp
+            if cnm is not None:
+                c["check_noise_map"] = cnm
+            yield c
+        # 11d. 1-D readers: hdu index x origin x constructor `invert`
+        for _ in range(14 if quick else 60):
+            items = []
+            for j in range(rng.randint(2, 4)):
+                ln = rng.randint(1, 5)
+                mask = [rng.random() < 0.4 for _ in range(ln)]
+                if all(mask):
+                    mask[rng.randrange(ln)] = False
+                kind = rng.choice(["array1d", "mask1d"])
+                it = {"kind": kind, "bits": "".join("1" if b else "0" for b in mask),
+                      "scale": self._scales(rng, False)[0]}
+                if kind == "array1d":
+                    it["values"] = qlist(self._values(rng, mask.count(False), "dyadic"))
+                    it["store_native"] = rng.random() < 0.5
+                else:
+                    it["ctor_invert"] = rng.random() < 0.5
+                items.append(it)
+            opts = {"hdu": rng.randrange(len(items))}
+            if rng.random() < 0.5:
+                opts["origin"] = rng.choice([["0"], ["100000"], [q(Fraction(1, 2 ** 40))]])
+            yield {"tag": "opt_1d", "kind": "opt_1d", "flip": rng.random() < 0.5, "items": items, "opts": opts,
+                   "scale": self._scales(rng, False)[0], "explicit_all": rng.random() < 0.3,
+                   "path_style": rng.choice(["abs", "rel"])}
+
+    # ================================================================== round 5: OWNERSHIP stream (R5-B)
+    def _gen_own(self, tier, rng):
+        """observe -> scribble in place over every array / HDU / header the API returned or was given -> rebuild
+        the same world from fresh equal inputs (same paths, overwrite) -> observe; three rounds.  Every round is
+        compared with the model's value for a fresh world."""
+        n = 8 if tier == "quick" else 60
+        bases = []
+        for _ in range(n):
+            h, w = rng.randint(1, 4), rng.randint(1, 4)
+            m = self._structured_mask(rng, h, w)
+            bases.append(self._arr_case(rng, m, "x"))
+            mj = self._structured_mask(rng, rng.randint(1, 3), rng.randint(2, 4))
+            if not any(b for r in mj for b in r):
+                mj[0][0] = True
+            if all(b for r in mj for b in r):
+                mj[0][1] = False
+            bases.append(self._junk_arr_case(rng, mj, "x"))
+            bases.append(self._mask_case(rng, self._structured_mask(rng, h, w), "x"))
+            ln = rng.randint(1, 6)
+            mask = [rng.random() < 0.4 for _ in range(ln)]
+            if all(mask):
+                mask[rng.randrange(ln)] = False
+            bits = "".join("1" if b else "0" for b in mask)
+            bases.append({"kind": "array1d", "flip": rng.random() < 0.5, "bits": bits,
+                          "values": qlist(self._values(rng, mask.count(False))), "scale": self._scales(rng, False)[0],
+                          "store_native": rng.random() < 0.5,
+                          "path_style": rng.choice(["abs", "rel", "bare", "nested"])})
+            bases.append({"kind": "mask1d", "flip": rng.random() < 0.5, "bits": bits,
+                          "scale": self._scales(rng, False)[0],
+                          "path_style": rng.choice(["abs", "rel", "bare", "nested"])})
+        for _ in range(max(3, n // 2)):
+            arrays = []
+            for _j in range(rng.randint(2, 3)):
+                m, _mk = gen.random_mask(rng, rng.randint(1, 3), rng.randint(1, 3))
+                nun = sum(1 for r in m for b in r if not b)
+                arrays.append({"mask": mask_json(m), "values": qlist(self._values(rng, nun)),
+                               "scales": self._scales(rng)})
+            bases.append({"kind": "multi_hdu", "flip": rng.random() < 0.5, "arrays": arrays,
+                          "read": rng.randrange(len(arrays)), "scales": self._scales(rng),
+                          "reader": rng.choice(["array2d", "kernel2d"])})
+            h, w = rng.randint(1, 4), rng.randint(1, 4)
+            bases.append({"kind": "imaging", "flip": rng.random() < 0.5, "shape": [h, w],
+                          "data": qlist(self._values(rng, h * w)),
+                          "noise": qlist([Fraction(v, 4) for v in gen.distinct_ints(rng, h * w, signed=False)]),
+                          "psf_shape": [rng.choice([1, 3]), rng.choice([1, 3])], "scales": self._scales(rng),
+                          "path_style": rng.choice(["abs", "rel", "bare", "nested"]), "with_psf": rng.random() < 0.8,
+                          "victim": rng.choice(["data", "psf", "noise"])})
+        for b in bases:
+            b.pop("tag", None)
+            b["via_open"] = b["kind"] in ("array2d", "kernel2d", "mask2d", "array1d", "mask1d") and rng.random() < 0.5
+            yield {"tag": "own_" + b["kind"], "kind": "own", "flip": b["flip"], "base": b,
+                   "scribble": [rng.choice(["nan", "inc"]) for _ in range(3)]}
+
+    # ================================================================== round 5: always-on LARGE cases (R5-E)
+    def _big_case(self, rng, obj, h, w, dim, **kw):
+        one_d = obj in ("array1d", "mask1d")
+        case = {"tag": f"always_large_{dim}", "kind": "big", "obj": obj, "h": h, "w": w, "dim": dim, "hint": 0,
+                "size": h * w, "flip": kw.pop("flip", True),
+                "mask_rule": kw.pop("mask_rule", {"rule": "rand", "seed": rng.randrange(1 << 30), "p": "3/10"}),
+                "vseed": rng.randrange(1 << 30),
+                "scales": [self._scales(rng, False)[0]] if one_d else self._scales(rng),
+                "store_native": kw.pop("store_native", True), "path_style": rng.choice(["abs", "rel"]),
+                "lean": True}
+        case.update(kw)
+        return case
+
+    def _gen_always_big(self, tier, rng):
+        """one or two cases beyond 2^16 elements / 2^15 rows in EVERY run (not only when the source gained an
+        integer constant): judged by the vectorised exact oracle of the large stream"""
+        a = rng.randint(251, 262)
+        yield self._big_case(rng, "array2d", a, (70000 // a) + rng.randint(1, 9), "pixels_hxw")
+        yield self._big_case(rng, "array1d", 1, 66000 + rng.randint(1, 999), "len1d")
+        if tier != "quick":
+            yield self._big_case(rng, "array2d", 33000 + rng.randint(1, 99), 2, "rows", flip=True)
+            yield self._big_case(rng, "array2d", 2, 33000 + rng.randint(1, 99), "cols", flip=True)
+            yield self._big_case(rng, "mask2d", 300 + rng.randint(1, 9), 230, "pixels_hxw")
+            yield self._big_case(rng, "kernel2d", 263, 257, "pixels_hxw", mask_rule={"rule": "none"})
+            yield self._big_case(rng, "array2d", 270, 259, "pixels_hxw_junk", junk="arith")
+            yield self._big_case(rng, "mask1d", 1, 70001, "len1d")
 
     PATHS = [["a.fits"], ["b.fits"], ["d1", "a.fits"], ["d1", "b.fits"], ["d1", "d2", "a.fits"],
              ["d3", "d4", "d5", "c.fits"], ["d1", "d2", "c.fits"], ["d6", "a.fits"]]
@@ -1011,7 +1644,7 @@ class C16(PropertyCheck):
         return qlist(out)
 
     def _hist_case(self, rng, theme=None, obj=None):
-        theme = theme or rng.choice(self.HIST_THEMES)
+        theme = theme or rng.choice([t for t in self.HIST_THEMES if t != "config"])
         if obj is None:
             obj = rng.choice(["array2d", "array2d", "array2d", "kernel2d", "mask2d", "array1d", "mask1d"])
         if theme in ("derive", "junk_routes") and obj in ("mask2d", "mask1d"):
@@ -1246,6 +1879,48 @@ class C16(PropertyCheck):
             add(op="read_hdu")
             add(op="write", path=P[0], overwrite=True)
             rd(P[0])
+        elif theme == "config":
+            # (round 5, R5-D) configuration histories: both values the anchored code reads
+            # (general.fits.flip_for_ds9, general.structures.native_binned_only) are changed BETWEEN calls, by
+            # item assignment and by pushing a configuration directory, on reused and on freshly built objects.
+            # What is written follows the flag in force when it is written, what is read the flag in force
+            # when it is read; `native_binned_only` only changes how new objects are stored.  Only steps that
+            # do not depend on the storage form are used (the bookkeeping does not track it under that option)
+            # (a push re-reads the configuration files, ~0.1 s: two per history)
+            def conf_step(flip=None, nbo=None, via="item"):
+                add(op="set_conf", flip=(rng.random() < 0.5) if flip is None else flip,
+                    nbo=(rng.random() < 0.5) if nbo is None else nbo, via=via)
+
+            def rebuild():
+                if is_mask:
+                    add(op="twin", share_mask=False)
+                else:
+                    add(op="twin", values=sim.slim_values(), share_mask=False)
+
+            conf_step(flip=not sim.flip, nbo=False, via="push")
+            add(op="hdu")
+            conf_step(flip=not sim.flip, nbo=True, via="item")
+            add(op="read_hdu")
+            add(op="hdu")
+            add(op="write", path=P[0], overwrite=False)
+            rebuild()  # a fresh object built while native_binned_only is on: held in native form
+            if not is_mask:
+                derive(rng.choice(["add", "sub", "radd"]))  # non-zero numbers under its mask
+            add(op="hdu")
+            add(op="read_hdu")
+            conf_step(flip=not sim.flip, nbo=False, via="item")
+            add(op="hdu")
+            rd(P[0])
+            add(op="write", path=P[1], overwrite=False)
+            if rng.random() < 0.5:
+                add(op="decoy")
+            conf_step(flip=not sim.flip, via="push")
+            rd(P[1])
+            rd(P[0])
+            add(op="read_hdu")
+            conf_step(flip=sim.flip, nbo=False, via="item")
+            rebuild()
+            add(op="hdu")
         else:  # "random": any valid sequence
             for _ in range(rng.randint(5, 10)):
                 r = rng.random()
@@ -1261,7 +1936,11 @@ class C16(PropertyCheck):
                 elif r < 0.75:
                     edit()
                 elif r < 0.82:
-                    add(op="set_flip", flip=rng.random() < 0.5)
+                    if rng.random() < 0.5:
+                        add(op="set_flip", flip=rng.random() < 0.5)
+                    else:  # (round 5) both values at once, now and then through a pushed config directory
+                        add(op="set_conf", flip=rng.random() < 0.5, nbo=False,
+                            via="push" if rng.random() < 0.25 else "item")
                 elif r < 0.9:
                     derive()
                 elif r < 0.95:
@@ -1275,7 +1954,7 @@ class C16(PropertyCheck):
         return c
 
     HIST_THEMES = ["edit_rewrite", "twin", "fault_reuse", "two_flips", "decoy_order", "derive", "junk_routes",
-                   "shared_hdu", "adopt_chain", "mask_edit", "random"]
+                   "shared_hdu", "adopt_chain", "mask_edit", "config", "random"]
 
     def _gen_hist(self, tier, rng):
         # every theme × every object class once (independent of luck), then random ones
@@ -1284,8 +1963,10 @@ class C16(PropertyCheck):
                 if theme in ("derive", "junk_routes") and obj in ("mask2d", "mask1d"):
                     continue
                 yield self._hist_case(rng, theme, obj)
-        for _ in range(400 if tier == "quick" else 1500):
+        for _ in range(350 if tier == "quick" else 1500):
             yield self._hist_case(rng)
+        for _ in range(5 if tier == "quick" else 40):
+            yield self._hist_case(rng, "config")
 
     # ------------------------------------------------------------------ history: the real code
     _DECOYS_ARR = ["native", "slim", "native_skip_mask", "pixel_scales", "pixel_scale", "pixel_scale_header",
@@ -1404,6 +2085,8 @@ class C16(PropertyCheck):
                     o = "IndexError"
             elif op == "set_flip":
                 sb.set_flip(st["flip"])
+            elif op == "set_conf":
+                sb.set_conf(st["flip"], st["nbo"], st.get("via", "item"))
             elif op == "edit":
                 k = st["key"]
                 a[tuple(k) if isinstance(k, list) else k] = _f(st["value"])
@@ -2009,88 +2692,161 @@ class C16(PropertyCheck):
         with _Sandbox(case["flip"]) as sb:
             return getattr(self, "_impl_" + kind)(aa, case, sb)
 
+    # (round 5, R5-B) while an ownership case runs, every array / structure / HDU the implementation functions
+    # hand to the API or get back from it is remembered here, to be scribbled over between the rounds
+    _keep = None
+
+    def _k(self, *xs):
+        if self._keep is not None:
+            self._keep.extend(xs)
+        return xs[0]
+
+    @staticmethod
+    def _scales_arg(case, sc):
+        """the pixel scales in the container the case asks for (R5-C): tuple (default), bare float, list, ndarray"""
+        f = case.get("scales_form")
+        if f == "float":
+            return sc[0]
+        if f == "int":
+            return int(sc[0])
+        if f == "list":
+            return [sc[0], sc[1]]
+        if f == "nparray":
+            return np.array([sc[0], sc[1]])
+        return sc
+
+    def _mask_in_form(self, aa, m, ps, origin, form, one_d=False):
+        """(round 5, R5-C) the mask `m` handed to the constructor in another layout / dtype / container, through
+        the `invert` option, or as an existing mask object (which has other pixel scales and another origin: the
+        new arguments must win)"""
+        cls = aa.Mask1D if one_d else aa.Mask2D
+        kw = {} if origin is None else {"origin": origin}
+        if form in (None, "plain"):
+            return cls(mask=self._k(m.copy()), pixel_scales=ps, **kw)
+        if form == "invert_ctor":
+            return cls(mask=self._k(~m), pixel_scales=ps, invert=True, **kw)
+        if form in ("mask_obj", "mask_obj_origin0"):
+            inner = aa.Mask2D(mask=self._k(m.copy()), pixel_scales=(3.0, 0.25), origin=(2.5, -1.0))
+            if form == "mask_obj_origin0":
+                kw = {"origin": (0.0, 0.0)}
+            return aa.Mask2D(mask=self._k(inner), pixel_scales=ps, **kw)
+        src = m.astype(form) if form in ("int64", "uint8", "float64") else m
+        return cls(mask=self._k(_layout(src, form if src is m else "plain")), pixel_scales=ps, **kw)
+
     def _build_array(self, aa, case):
         m = _bits2d(case["mask"])
         sc = (_f(case["scales"][0]), _f(case["scales"][1]))
         origin = tuple(_f(v) for v in case.get("origin", ["0", "0"]))
-        mask = aa.Mask2D(mask=m, pixel_scales=sc, origin=origin)
-        vals = np.array([_f(v) for v in case["values"]], dtype="float64")
+        vals = self._k(np.array([_f(v) for v in case["values"]], dtype="float64"))
         cls = aa.Kernel2D if case["kind"] == "kernel2d" else aa.Array2D
+        lay = case.get("layout")
+        if lay:
+            # (round 5, R5-C) equal-valued inputs in another memory layout / dtype / container
+            mask = self._k(self._mask_in_form(aa, m, self._scales_arg(case, sc), origin, lay.get("m")))
+            if lay.get("native_input"):
+                nat = np.full(m.shape, 77.0)  # junk in masked cells must not reach the file
+                nat[~m] = vals
+                v = _layout(nat, lay.get("v"))
+            else:
+                v = _layout(vals, lay.get("v"))
+            kw = {"store_native": True} if case.get("store_native") else {}
+            if lay.get("ctor") == "wrapped_native":  # a structure built from another (natively stored) structure
+                inner = aa.Array2D(values=self._k(v), mask=mask, store_native=True)
+                return cls(values=self._k(inner), mask=mask, **kw), sc
+            if lay.get("ctor") == "skip_mask":  # `skip_mask=True` with an input that is slim / converted to slim
+                return cls(values=self._k(v), mask=mask, skip_mask=True, **kw) if cls is aa.Array2D \
+                    else cls(values=self._k(v), mask=mask, **kw), sc
+            return cls(values=self._k(v), mask=mask, **kw), sc
+        mask = self._k(aa.Mask2D(mask=self._k(m.copy()), pixel_scales=sc, origin=origin))
         if case.get("junk"):
             held = np.array([_f(v) for v in self._stored_native(case)], dtype="float64").reshape(m.shape)
             if case["junk"] == "arith":
                 shift = _f(case["junk_shift"])
                 nat = np.full(m.shape, 55.0)
                 nat[~m] = vals + shift
-                a = cls(values=nat, mask=mask, store_native=True) - shift
+                a = cls(values=self._k(nat), mask=mask, store_native=True) - shift
             else:
-                a = cls(values=held.copy(), mask=mask, store_native=True, skip_mask=True)
+                a = cls(values=self._k(held.copy()), mask=mask, store_native=True, skip_mask=True)
             if not np.array_equal(np.asarray(a.array, dtype="float64"), held):
                 raise Skip("could not build a native-stored array with non-zero values under the mask")
             return a, sc
         if case.get("store_native"):
             nat = np.full(m.shape, 77.0)  # junk in masked cells must not reach the file
             nat[~m] = vals
-            return cls(values=nat, mask=mask, store_native=True), sc
+            return cls(values=self._k(nat), mask=mask, store_native=True), sc
         form = case.get("in_form")
         if form:
-            ps = sc
-            if case.get("scales_form") == "float":
-                ps = sc[0]
-            elif case.get("scales_form") == "int":
-                ps = int(sc[0])
+            ps = self._scales_arg(case, sc)
             if form in ("no_mask", "full"):
                 h, w = m.shape
                 if form == "full":
                     fv = _f(case["values"][0]) if case["values"] else 0.0
                     return cls.full(fill_value=fv, shape_native=(h, w), pixel_scales=ps, origin=origin), sc
                 nat = [[_f(v) for v in case["values"][y * w:(y + 1) * w]] for y in range(h)]
-                return cls.no_mask(values=nat, pixel_scales=ps, origin=origin), sc
-            mask = aa.Mask2D(mask=m.tolist() if case.get("explicit_defaults") else m, pixel_scales=ps,
-                             origin=origin)
+                return cls.no_mask(values=self._k(nat), pixel_scales=ps, origin=origin), sc
+            mask = self._k(aa.Mask2D(mask=m.tolist() if case.get("explicit_defaults") else m, pixel_scales=ps,
+                                     origin=origin))
             if form == "wrapped":
-                return cls(values=cls(values=vals, mask=mask), mask=mask), sc
+                return cls(values=self._k(cls(values=vals, mask=mask)), mask=mask), sc
             if form == "native_list":
                 nat = np.zeros(m.shape)
                 nat[~m] = vals
                 return cls(values=nat.tolist(), mask=mask), sc
-            return cls(values=_as_form(case["values"], form), mask=mask), sc
+            return cls(values=self._k(_as_form(case["values"], form)), mask=mask), sc
         return cls(values=vals, mask=mask), sc
 
     def _impl_array2d(self, aa, case, sb):
+        from astropy.io import fits
+
         a, sc = self._build_array(aa, case)
+        self._k(a)
         cls = aa.Kernel2D if case["kind"] == "kernel2d" else aa.Array2D
-        hdu = a.hdu_for_output
+        # (round 5) `origin` handed to the readers: far from zero / exactly zero / not at all
+        okw = {"origin": tuple(_f(v) for v in case["read_origin"])} if case.get("read_origin") else {}
+        hdu = self._k(a.hdu_for_output)
         obs = {"hdu": {"data": _data_json(hdu.data), "header": _cards(hdu.header)}}
-        obs["from_hdu"] = _read2d(cls.from_primary_hdu(hdu))
+        obs["from_hdu"] = _read2d(self._k(cls.from_primary_hdu(hdu, **okw)))
         path = self._paths(sb, case["path_style"])
+        ow = {"overwrite": True} if case.get("overwrite") else {}
         if case.get("explicit_defaults"):
-            a.output_to_fits(file_path=path, overwrite=False)
-            kw = {"origin": (0.0, 0.0)}
+            a.output_to_fits(file_path=path, overwrite=bool(case.get("overwrite", False)))
+            kw = {"origin": (0.0, 0.0), **okw}
             if case["kind"] == "kernel2d":
                 kw["normalize"] = False
             b = cls.from_fits(file_path=path, pixel_scales=sc, hdu=0, **kw)
         else:
-            a.output_to_fits(file_path=path)
-            b = cls.from_fits(file_path=path, pixel_scales=sc, hdu=0)
+            a.output_to_fits(file_path=path, **ow)
+            b = cls.from_fits(file_path=path, pixel_scales=self._scales_arg(case, sc) if case.get("layout") else sc,
+                              hdu=0, **okw)
+        self._k(b)
         obs["from_file"] = _read2d(b)
         obs["file_headers"] = {"sci": _cards(b.header.header_sci_obj), "hdu": _cards(b.header.header_hdu_obj)}
+        if case.get("via_open"):
+            # (round 5, R5-C) the HDU as astropy hands it back from the file (big-endian, lazily loaded data)
+            with fits.open(path if os.path.isabs(path) else os.path.join(os.getcwd(), path)) as hl:
+                obs["from_open_hdu"] = _read2d(self._k(cls.from_primary_hdu(hl[0], **okw)))
         return obs
 
     _impl_kernel2d = _impl_array2d
 
     def _impl_mask2d(self, aa, case, sb):
+        from astropy.io import fits
+
         m = _bits2d(case["mask"])
         sc = (_f(case["scales"][0]), _f(case["scales"][1]))
-        mask = aa.Mask2D(mask=m, pixel_scales=sc)
-        hdu = mask.hdu_for_output
+        if case.get("mask_form"):
+            mask = self._mask_in_form(aa, m, self._scales_arg(case, sc), None, case["mask_form"])
+        else:
+            mask = aa.Mask2D(mask=self._k(m.copy()), pixel_scales=sc)
+        self._k(mask)
+        hdu = self._k(mask.hdu_for_output)
         obs = {"hdu": {"data": _data_json(hdu.data), "header": _cards(hdu.header)}}
-        back = aa.Mask2D.from_primary_hdu(hdu)
+        back = self._k(aa.Mask2D.from_primary_hdu(hdu))
         obs["from_hdu"] = {"mask": _mask_obs(back), "scales": qlist(back.pixel_scales)}
         path = self._paths(sb, case["path_style"], "mask.fits")
-        mask.output_to_fits(file_path=path)
-        b = aa.Mask2D.from_fits(file_path=path, pixel_scales=sc, invert=case.get("invert", False), hdu=0,
-                                origin=(0.0, 0.0), resized_mask_shape=None)
+        mask.output_to_fits(file_path=path, **({"overwrite": True} if case.get("overwrite") else {}))
+        b = self._k(aa.Mask2D.from_fits(file_path=path, pixel_scales=sc, invert=case.get("invert", False), hdu=0,
+                                        origin=(0.0, 0.0), resized_mask_shape=None))
         obs["from_file"] = _mask_obs(b)
         obs["from_file_scales"] = qlist(b.pixel_scales)
         if case.get("resized"):
@@ -2100,6 +2856,10 @@ class C16(PropertyCheck):
             obs["resized"] = _mask_obs(r)
             ref = aa.Mask2D(mask=(~m if case.get("invert") else m), pixel_scales=sc).resized_from(new_shape=shp)
             obs["resized_ref"] = _mask_obs(ref)
+        if case.get("via_open"):
+            with fits.open(path if os.path.isabs(path) else os.path.join(os.getcwd(), path)) as hl:
+                bo = self._k(aa.Mask2D.from_primary_hdu(hl[0]))
+                obs["from_open_hdu"] = {"mask": _mask_obs(bo), "scales": qlist(bo.pixel_scales)}
         return obs
 
     @staticmethod
@@ -2112,58 +2872,95 @@ class C16(PropertyCheck):
         return [next(junk) if b == "1" else next(vals) for b in case["bits"]]
 
     def _impl_array1d(self, aa, case, sb):
+        from astropy.io import fits
+
         mask = np.array([c == "1" for c in case["bits"]], dtype=bool)
         s = _f(case["scale"])
-        m1 = aa.Mask1D(mask=mask, pixel_scales=s)
-        vals = np.array([_f(v) for v in case["values"]], dtype="float64")
-        if case.get("junk"):
+        lay = case.get("layout")
+        ps = (s,) if case.get("scale_form") == "tuple" else ([s] if case.get("scale_form") == "list" else s)
+        if lay:
+            m1 = self._mask_in_form(aa, mask, ps, None, lay.get("m"), one_d=True)
+        else:
+            m1 = aa.Mask1D(mask=self._k(mask.copy()), pixel_scales=s)
+        self._k(m1)
+        vals = self._k(np.array([_f(v) for v in case["values"]], dtype="float64"))
+        if lay:
+            # (round 5, R5-C) equal-valued inputs in another memory layout / dtype / container
+            if lay.get("native_input"):
+                nat = np.full(mask.shape, 77.0)
+                nat[~mask] = vals
+                v = _layout(nat, lay.get("v"))
+            else:
+                v = _layout(vals, lay.get("v"))
+            kw = {"store_native": True} if case.get("store_native") else {}
+            if lay.get("ctor") == "wrapped":
+                v = aa.Array1D(values=self._k(v), mask=m1, **kw)
+            a = aa.Array1D(values=self._k(v), mask=m1, **kw)
+        elif case.get("junk"):
             held = np.array([_f(v) for v in self._stored_native_1d(case)], dtype="float64")
             if case["junk"] == "arith":
                 shift = _f(case["junk_shift"])
                 nat = np.zeros(mask.shape)
                 nat[~mask] = vals + shift
-                a = aa.Array1D(values=nat, mask=m1, store_native=True) - shift
+                a = aa.Array1D(values=self._k(nat), mask=m1, store_native=True) - shift
             else:
-                a = aa.Array1D(values=held.copy(), mask=m1, store_native=True)
+                a = aa.Array1D(values=self._k(held.copy()), mask=m1, store_native=True)
         elif case.get("store_native"):
             nat = np.zeros(mask.shape)
             nat[~mask] = vals
-            a = aa.Array1D(values=nat, mask=m1, store_native=True)
+            a = aa.Array1D(values=self._k(nat), mask=m1, store_native=True)
         elif case.get("in_form"):
             form = case["in_form"]
-            ps = (s,) if case.get("scale_form") == "tuple" else s
             if form == "no_mask":
                 a = aa.Array1D.no_mask(values=[_f(v) for v in case["values"]], pixel_scales=ps)
             else:
                 m1 = aa.Mask1D(mask=mask.tolist() if case.get("explicit_defaults") else mask, pixel_scales=ps)
-                a = aa.Array1D(values=_as_form(case["values"], form), mask=m1)
+                a = aa.Array1D(values=self._k(_as_form(case["values"], form)), mask=m1)
         else:
             a = aa.Array1D(values=vals, mask=m1)
-        hdu = a.hdu_for_output
+        self._k(a)
+        hdu = self._k(a.hdu_for_output)
         obs = {"hdu": {"data": _data_json(hdu.data), "header": _cards(hdu.header)}}
-        b = aa.Array1D.from_primary_hdu(hdu)
+        b = self._k(aa.Array1D.from_primary_hdu(hdu))
         obs["from_hdu"] = {"native": qlist(np.asarray(b.native.array, dtype="float64")),
                            "scales": qlist(b.pixel_scales)}
         path = self._paths(sb, case["path_style"], "a1.fits")
-        a.output_to_fits(file_path=path)
-        c = aa.Array1D.from_fits(file_path=path, pixel_scales=s)
+        a.output_to_fits(file_path=path, **({"overwrite": True} if case.get("overwrite") else {}))
+        c = self._k(aa.Array1D.from_fits(file_path=path, pixel_scales=s))
         obs["from_file"] = qlist(np.asarray(c.native.array, dtype="float64"))
         obs["file_headers"] = _cards(c.header.header_sci_obj)
+        if case.get("via_open"):
+            with fits.open(path) as hl:
+                bo = self._k(aa.Array1D.from_primary_hdu(hl[0]))
+                obs["from_open_hdu"] = {"native": qlist(np.asarray(bo.native.array, dtype="float64")),
+                                        "scales": qlist(bo.pixel_scales)}
         return obs
 
     def _impl_mask1d(self, aa, case, sb):
+        from astropy.io import fits
+
         mask = np.array([c == "1" for c in case["bits"]], dtype=bool)
         s = _f(case["scale"])
-        m1 = aa.Mask1D(mask=mask, pixel_scales=s)
-        hdu = m1.hdu_for_output
+        if case.get("mask_form"):
+            ps = (s,) if case.get("scale_form") == "tuple" else ([s] if case.get("scale_form") == "list" else s)
+            m1 = self._mask_in_form(aa, mask, ps, None, case["mask_form"], one_d=True)
+        else:
+            m1 = aa.Mask1D(mask=self._k(mask.copy()), pixel_scales=s)
+        self._k(m1)
+        hdu = self._k(m1.hdu_for_output)
         obs = {"hdu": {"data": _data_json(hdu.data), "header": _cards(hdu.header)}}
-        b = aa.Mask1D.from_primary_hdu(hdu)
+        b = self._k(aa.Mask1D.from_primary_hdu(hdu))
         obs["from_hdu"] = {"bits": "".join("1" if v else "0" for v in np.asarray(b)),
                            "scales": qlist(b.pixel_scales)}
         path = self._paths(sb, case["path_style"], "m1.fits")
-        m1.output_to_fits(file_path=path)
-        c = aa.Mask1D.from_fits(file_path=path, pixel_scales=s)
+        m1.output_to_fits(file_path=path, **({"overwrite": True} if case.get("overwrite") else {}))
+        c = self._k(aa.Mask1D.from_fits(file_path=path, pixel_scales=s))
         obs["from_file"] = "".join("1" if v else "0" for v in np.asarray(c))
+        if case.get("via_open"):
+            with fits.open(path) as hl:
+                bo = self._k(aa.Mask1D.from_primary_hdu(hl[0]))
+                obs["from_open_hdu"] = {"bits": "".join("1" if v else "0" for v in np.asarray(bo)),
+                                        "scales": qlist(bo.pixel_scales)}
         return obs
 
     def _impl_multi_hdu(self, aa, case, sb):
@@ -2172,31 +2969,36 @@ class C16(PropertyCheck):
         hl = fits.HDUList()
         for a in case["arrays"]:
             arr, _sc = self._build_array(aa, {**a, "kind": "array2d"})
-            hl.append(arr.hdu_for_output)
+            hl.append(self._k(arr.hdu_for_output))
         path = sb.path(["multi.fits"], "abs")
-        hl.writeto(path)
+        hl.writeto(path, overwrite=bool(case.get("overwrite")))
         sc = (_f(case["scales"][0]), _f(case["scales"][1]))
         cls = aa.Kernel2D if case["reader"] == "kernel2d" else aa.Array2D
-        b = cls.from_fits(file_path=path, pixel_scales=sc, hdu=case["read"])
+        b = self._k(cls.from_fits(file_path=path, pixel_scales=sc, hdu=case["read"]))
         return {"read": _read2d(b), "sci": _cards(b.header.header_sci_obj),
                 "hdu": _cards(b.header.header_hdu_obj)}
 
     def _impl_imaging(self, aa, case, sb):
         h, w = case["shape"]
         sc = (_f(case["scales"][0]), _f(case["scales"][1]))
-        data = aa.Array2D.no_mask(np.array([_f(v) for v in case["data"]]).reshape(h, w), pixel_scales=sc)
-        noise = aa.Array2D.no_mask(np.array([_f(v) for v in case["noise"]]).reshape(h, w), pixel_scales=sc)
+        data = self._k(aa.Array2D.no_mask(self._k(np.array([_f(v) for v in case["data"]]).reshape(h, w)),
+                                          pixel_scales=sc))
+        noise = self._k(aa.Array2D.no_mask(self._k(np.array([_f(v) for v in case["noise"]]).reshape(h, w)),
+                                           pixel_scales=sc))
         psf = None
         if case["with_psf"]:
             kh, kw = case["psf_shape"]
-            psf = aa.Kernel2D.no_mask(np.array([[float(v) for v in r] for r in _unit_kernel(kh, kw)]),
-                                      pixel_scales=sc)
+            psf = self._k(aa.Kernel2D.no_mask(self._k(np.array([[float(v) for v in r]
+                                                                 for r in _unit_kernel(kh, kw)])),
+                                              pixel_scales=sc))
         im = aa.Imaging(data=data, noise_map=noise, psf=psf)
+        self._k(im.data, im.noise_map, im.psf)
         st = case["path_style"]
         dp = self._paths(sb, st, "data.fits")
         npth = self._paths(sb, st, "noise_map.fits")
         pp = self._paths(sb, st, "psf.fits") if psf is not None else None
-        im.output_to_fits(data_path=dp, psf_path=pp, noise_map_path=npth)
+        im.output_to_fits(data_path=dp, psf_path=pp, noise_map_path=npth,
+                          **({"overwrite": True} if case.get("overwrite") else {}))
         # second call without overwrite: only the `victim` file still exists, so the call must fail
         # at exactly that component (data, psf, noise map are written in this order)
         victim = case.get("victim", "data")
@@ -2215,6 +3017,7 @@ class C16(PropertyCheck):
             im.noise_map[case["edit"]["noise"][0]] = _f(case["edit"]["noise"][1])
         im.output_to_fits(data_path=dp, psf_path=pp, noise_map_path=npth, overwrite=True)
         im2 = aa.Imaging.from_fits(pixel_scales=sc, data_path=dp, noise_map_path=npth, psf_path=pp)
+        self._k(im2.data, im2.noise_map, im2.psf)
         obs = {"second_write": second, "data": _read2d(im2.data), "noise": _read2d(im2.noise_map)}
         if psf is not None:
             obs["psf"] = _read2d(im2.psf)
@@ -2228,6 +3031,249 @@ class C16(PropertyCheck):
             i, v = case["edit"][k]
             vals[i] = v
         return vals
+
+    # ------------------------------------------------------------------ round 5: ownership (R5-B)
+    def _impl_own(self, aa, case, sb):
+        base = case["base"]
+        fn = getattr(self, "_impl_" + base["kind"])
+        rounds = []
+        for r in range(3):
+            b = dict(base)
+            if r > 0:
+                b["overwrite"] = True  # the same paths again: the files of the previous round are replaced
+            self._keep = []
+            try:
+                obs = fn(aa, b, sb)
+                kept = self._keep
+            finally:
+                self._keep = None
+            rounds.append(obs)
+            seen = set()
+            for x in kept:
+                _scribble(x, case["scribble"][r % len(case["scribble"])], seen)
+            del kept
+        return {"rounds": rounds}
+
+    # ------------------------------------------------------------------ round 5: options (R5-F)
+    @staticmethod
+    def _opt_kwargs(fn, wanted, explicit_all=False):
+        """keyword arguments for `fn` taken from `wanted`, checked against the signature (a case whose option
+        the API no longer has is skipped, not failed); with `explicit_all` every other optional parameter is
+        passed explicitly at its default value"""
+        import inspect
+
+        sig = inspect.signature(fn)
+        kw = {}
+        for name, v in wanted.items():
+            if name not in sig.parameters:
+                raise Skip(f"{getattr(fn, '__qualname__', fn)} has no parameter {name!r}")
+            kw[name] = v
+        if explicit_all:
+            for name, prm in sig.parameters.items():
+                if prm.default is not inspect.Parameter.empty and name not in kw and \
+                        prm.kind in (prm.POSITIONAL_OR_KEYWORD, prm.KEYWORD_ONLY):
+                    kw[name] = prm.default
+        return kw
+
+    def _impl_opt_mask2d(self, aa, case, sb):
+        from astropy.io import fits
+
+        hl = fits.HDUList()
+        for mk in case["masks"]:
+            m = _bits2d(mk["mask"])
+            sc = (_f(mk["scales"][0]), _f(mk["scales"][1]))
+            mo = self._mask_in_form(aa, m, sc, None, "invert_ctor" if mk.get("ctor_invert") else None)
+            hl.append(self._k(mo.hdu_for_output))
+        path = sb.path(["m", "masks.fits"], case.get("path_style", "abs"))
+        os.makedirs(os.path.dirname(os.path.abspath(path)), exist_ok=True)
+        hl.writeto(path, overwrite=True)
+        sc = (_f(case["scales"][0]), _f(case["scales"][1]))
+        wanted = {}
+        for k, v in case["opts"].items():
+            if k == "origin":
+                v = tuple(_f(x) for x in v)
+            elif k == "resized_mask_shape" and v is not None:
+                v = tuple(v)
+            wanted[k] = v
+        plain = {k: v for k, v in wanted.items() if k != "resized_mask_shape"}
+        b = self._k(aa.Mask2D.from_fits(file_path=path, pixel_scales=sc,
+                                        **self._opt_kwargs(aa.Mask2D.from_fits, plain, case.get("explicit_all"))))
+        obs = {"read": _mask_obs(b), "scales": qlist(b.pixel_scales)}
+        if wanted.get("resized_mask_shape") is not None:
+            r = aa.Mask2D.from_fits(file_path=path, pixel_scales=sc,
+                                    **self._opt_kwargs(aa.Mask2D.from_fits, wanted, case.get("explicit_all")))
+            obs["resized"] = _mask_obs(r)
+            ref = aa.Mask2D(mask=np.asarray(b).copy(), pixel_scales=sc).resized_from(
+                new_shape=wanted["resized_mask_shape"])
+            obs["resized_ref"] = _mask_obs(ref)
+        elif "resized_mask_shape" in wanted:  # explicitly None
+            r = aa.Mask2D.from_fits(file_path=path, pixel_scales=sc,
+                                    **self._opt_kwargs(aa.Mask2D.from_fits, wanted, case.get("explicit_all")))
+            obs["resized"] = _mask_obs(r)
+            obs["resized_ref"] = _mask_obs(b)
+        return obs
+
+    @staticmethod
+    def _kernel_expected(case):
+        """(values written, values `from_fits` must return) of an opt_kernel case, exact"""
+        vals = [Fraction(v) for v in case["values"]]
+        tot = sum(vals, Fraction(0))
+        written = [v / tot for v in vals] if case.get("ctor_normalize") else vals
+        t2 = sum(written, Fraction(0))
+        read = [v / t2 for v in written] if case.get("read_normalize") else written
+        return written, read
+
+    def _impl_opt_kernel(self, aa, case, sb):
+        m = _bits2d(case["mask"])
+        sc = (_f(case["scales"][0]), _f(case["scales"][1]))
+        vals = np.array([_f(v) for v in case["values"]], dtype="float64")
+        kw = {}
+        if "ctor_normalize" in case:
+            kw["normalize"] = case["ctor_normalize"]
+        if case["ctor"] == "no_mask":
+            if case.get("store_native"):
+                a = aa.Kernel2D.no_mask(values=self._k(vals.reshape(m.shape)), pixel_scales=sc, **kw)
+            else:
+                a = aa.Kernel2D.no_mask(values=self._k(vals.copy()), shape_native=m.shape, pixel_scales=sc, **kw)
+        else:
+            mask = aa.Mask2D(mask=m, pixel_scales=sc)
+            if case.get("store_native"):
+                nat = np.full(m.shape, 77.0)
+                nat[~m] = vals
+                a = aa.Kernel2D(values=self._k(nat), mask=mask, store_native=True, **kw)
+            else:
+                a = aa.Kernel2D(values=self._k(vals.copy()), mask=mask, **kw)
+        okw = {"origin": tuple(_f(v) for v in case["read_origin"])} if case.get("read_origin") else {}
+        hdu = self._k(a.hdu_for_output)
+        obs = {"hdu": {"data": _data_json(hdu.data), "header": _cards(hdu.header)}}
+        obs["from_hdu"] = _read2d(self._k(aa.Kernel2D.from_primary_hdu(hdu, **okw)))
+        path = self._paths(sb, case["path_style"], "kernel.fits")
+        a.output_to_fits(file_path=path)
+        rkw = dict(okw)
+        if "read_normalize" in case:
+            rkw["normalize"] = case["read_normalize"]
+        b = self._k(aa.Kernel2D.from_fits(file_path=path, pixel_scales=sc, hdu=0,
+                                          **self._opt_kwargs(aa.Kernel2D.from_fits, rkw)))
+        obs["from_file"] = _read2d(b)
+        obs["file_headers"] = {"sci": _cards(b.header.header_sci_obj), "hdu": _cards(b.header.header_hdu_obj)}
+        return obs
+
+    @staticmethod
+    def _imaging_psf_expected(case):
+        """the PSF values the dataset holds and writes: normalised unless use_normalized_psf is False"""
+        if not case.get("psf"):
+            return None
+        vals = [Fraction(v) for v in case["psf"]["values"]]
+        if case.get("use_normalized_psf", True):
+            tot = sum(vals, Fraction(0))
+            return [v / tot for v in vals]
+        return vals
+
+    def _impl_opt_imaging(self, aa, case, sb):
+        from astropy.io import fits
+
+        h, w = case["shape"]
+        sc = (_f(case["scales"][0]), _f(case["scales"][1]))
+        data = aa.Array2D.no_mask(self._k(np.array([_f(v) for v in case["data"]]).reshape(h, w)), pixel_scales=sc)
+        noise = aa.Array2D.no_mask(self._k(np.array([_f(v) for v in case["noise"]]).reshape(h, w)), pixel_scales=sc)
+        psf = None
+        if case.get("psf"):
+            kh, kw_ = case["psf"]["shape"]
+            psf = aa.Kernel2D.no_mask(self._k(np.array([_f(v) for v in case["psf"]["values"]]).reshape(kh, kw_)),
+                                      pixel_scales=sc)
+        ckw = {k: case[k] for k in ("use_normalized_psf", "check_noise_map") if k in case}
+        im = aa.Imaging(data=data, noise_map=noise, psf=psf, **self._opt_kwargs(aa.Imaging.__init__, ckw))
+        st = case["path_style"]
+        dp = self._paths(sb, st, "data.fits")
+        npth = self._paths(sb, st, "noise_map.fits")
+        pp = self._paths(sb, st, "psf.fits")
+        okw = {}
+        if case["psf_path"]:
+            okw["psf_path"] = pp
+        if case["noise_path"]:
+            okw["noise_map_path"] = npth
+        im.output_to_fits(data_path=dp, **self._opt_kwargs(im.output_to_fits, okw))
+        psf_written = bool(case["psf_path"] and psf is not None)
+        obs = {"exists": {"data": os.path.exists(dp), "psf": os.path.exists(pp), "noise": os.path.exists(npth)}}
+        obs["data"] = _read2d(self._k(aa.Array2D.from_fits(file_path=dp, pixel_scales=sc)))
+        if case["noise_path"] and os.path.exists(npth):
+            obs["noise"] = _read2d(self._k(aa.Array2D.from_fits(file_path=npth, pixel_scales=sc)))
+        if psf_written and os.path.exists(pp):
+            obs["psf"] = _read2d(self._k(aa.Kernel2D.from_fits(file_path=pp, hdu=0, pixel_scales=sc)))
+        # the dataset read back as a dataset (needs a noise map on disk)
+        if case["noise_path"]:
+            rkw = {}
+            if case.get("check_noise_map") is False:
+                rkw["check_noise_map"] = False
+            if case["route"] == "combined":
+                # data, noise map and PSF as HDUs of ONE file at scattered indices
+                slots = [None] * 5
+                i_d, i_n, i_p = case["hdus"]
+                slots[i_d], slots[i_n] = im.data.hdu_for_output, im.noise_map.hdu_for_output
+                if psf is not None:
+                    slots[i_p] = im.psf.hdu_for_output
+                hl = fits.HDUList()
+                for k, sl in enumerate(slots):
+                    hl.append(sl if sl is not None
+                              else aa.Array2D.no_mask(np.array([[float(k), -1.0]]), pixel_scales=1.0).hdu_for_output)
+                cp = sb.path(["combined.fits"], "abs")
+                hl.writeto(cp, overwrite=True)
+                rkw.update({"data_path": cp, "noise_map_path": cp, "data_hdu": i_d, "noise_map_hdu": i_n})
+                if psf is not None:
+                    rkw.update({"psf_path": cp, "psf_hdu": i_p})
+                psf_read = psf is not None
+            else:
+                rkw.update({"data_path": dp, "noise_map_path": npth})
+                if psf_written:
+                    rkw["psf_path"] = pp
+                psf_read = psf_written
+            im2 = aa.Imaging.from_fits(pixel_scales=sc, **self._opt_kwargs(aa.Imaging.from_fits, rkw))
+            obs["im_data"] = _read2d(im2.data)
+            obs["im_noise"] = _read2d(im2.noise_map)
+            exp = self._imaging_psf_expected(case)
+            if psf_read and exp is not None and sum(exp, Fraction(0)) == 1:
+                # Imaging normalises the PSF it is given: only a PSF that sums to exactly one comes back as is
+                obs["im_psf"] = _read2d(im2.psf)
+            obs["im_has_psf"] = im2.psf is not None
+        return obs
+
+    def _impl_opt_1d(self, aa, case, sb):
+        from astropy.io import fits
+
+        hl = fits.HDUList()
+        for it in case["items"]:
+            bits = np.array([c == "1" for c in it["bits"]], dtype=bool)
+            s = _f(it["scale"])
+            if it["kind"] == "mask1d":
+                mo = self._mask_in_form(aa, bits, s, None, "invert_ctor" if it.get("ctor_invert") else None,
+                                        one_d=True)
+                hl.append(self._k(mo.hdu_for_output))
+            else:
+                m1 = aa.Mask1D(mask=bits, pixel_scales=s)
+                vals = np.array([_f(v) for v in it["values"]], dtype="float64")
+                if it.get("store_native"):
+                    nat = np.full(bits.shape, 77.0)
+                    nat[~bits] = vals
+                    a = aa.Array1D(values=nat, mask=m1, store_native=True)
+                else:
+                    a = aa.Array1D(values=vals, mask=m1)
+                hl.append(self._k(a.hdu_for_output))
+        path = sb.path(["one_d.fits"], case.get("path_style", "abs"))
+        hl.writeto(path, overwrite=True)
+        k = case["opts"]["hdu"]
+        it = case["items"][k]
+        s = _f(case["scale"])
+        wanted = dict(case["opts"])
+        if "origin" in wanted:
+            wanted["origin"] = tuple(_f(x) for x in wanted["origin"])
+        if it["kind"] == "mask1d":
+            b = aa.Mask1D.from_fits(file_path=path, pixel_scales=s,
+                                    **self._opt_kwargs(aa.Mask1D.from_fits, wanted, case.get("explicit_all")))
+            return {"read": "".join("1" if v else "0" for v in np.asarray(b)), "scales": qlist(b.pixel_scales)}
+        b = aa.Array1D.from_fits(file_path=path, pixel_scales=s,
+                                 **self._opt_kwargs(aa.Array1D.from_fits, wanted, case.get("explicit_all")))
+        return {"read": qlist(np.asarray(b.native.array, dtype="float64")), "scales": qlist(b.pixel_scales),
+                "sci": _cards(b.header.header_sci_obj), "hdu": _cards(b.header.header_hdu_obj)}
 
     # content of history step `cid` written through writer `w`: small, asymmetric, encodes cid
     def _content(self, aa, cid, writer):
@@ -2302,6 +3348,32 @@ class C16(PropertyCheck):
             return []  # judged by the oracle alone (vectorised, exact)
         if kind == "hist":
             return [r for _i, _part, r in self._hist_requests(case)[0]]
+        if kind == "own":
+            return self.model_requests(case["base"], None)
+        if kind == "opt_mask2d":
+            mk = case["masks"][case["opts"]["hdu"]]
+            return [{"op": "c16.mask2d", "mask": mk["mask"], "scales": mk["scales"], "flip": case["flip"],
+                     "invert": bool(case["opts"].get("invert", False))}]
+        if kind == "opt_kernel":
+            written, _read = self._kernel_expected(case)
+            return [{"op": "c16.array2d", "mask": case["mask"], "values": qlist(written), "scales": case["scales"],
+                     "flip": case["flip"]}]
+        if kind == "opt_imaging":
+            h, w = case["shape"]
+            full = {"h": h, "w": w, "bits": "0" * (h * w)}
+            reqs = [{"op": "c16.array2d", "mask": full, "values": case[k], "scales": case["scales"],
+                     "flip": case["flip"]} for k in ("data", "noise")]
+            exp = self._imaging_psf_expected(case)
+            if exp is not None:
+                kh, kw = case["psf"]["shape"]
+                reqs.append({"op": "c16.array2d", "mask": {"h": kh, "w": kw, "bits": "0" * (kh * kw)},
+                             "values": qlist(exp), "scales": case["scales"], "flip": case["flip"]})
+            return reqs
+        if kind == "opt_1d":
+            it = case["items"][case["opts"]["hdu"]]
+            if it["kind"] == "mask1d":
+                return [{"op": "c16.mask1d", "bits": it["bits"], "scale": it["scale"]}]
+            return [{"op": "c16.array1d", "bits": it["bits"], "values": it["values"], "scale": it["scale"]}]
         if kind in ("array2d", "kernel2d"):
             req = {"op": "c16.array2d", "mask": case["mask"], "values": case["values"],
                    "scales": case["scales"], "flip": case["flip"]}
@@ -2353,6 +3425,27 @@ class C16(PropertyCheck):
         kind = case["kind"]
         if kind == "hist":
             return self._hist_model_obs(case, responses)
+        if kind == "own":
+            return self.model_obs(case["base"], responses)
+        if kind == "opt_kernel":
+            r = dict(responses[0]["ok"])
+            if case.get("read_normalize") and not case.get("ctor_normalize"):
+                # `from_fits(normalize=True)` divides what the file holds by its sum (a power of two here)
+                tot = sum((Fraction(v) for v in case["values"]), Fraction(0))
+                ff = dict(r["from_file"])
+                ff["native"] = qlist([Fraction(v) / tot for v in ff["native"]])
+                ff["slim"] = qlist([Fraction(v) / tot for v in ff["slim"]])
+                r["from_file"] = ff
+            return r
+        if kind == "opt_imaging":
+            out = {"data": responses[0]["ok"]["from_file"], "noise": responses[1]["ok"]["from_file"]}
+            if len(responses) > 2:
+                out["psf"] = responses[2]["ok"]["from_file"]
+            return out
+        if kind == "opt_mask2d":
+            return {"read": responses[0]["ok"]["from_file"]}
+        if kind == "opt_1d":
+            return {"read": responses[0]["ok"]["from_file"]}
         r = responses[0]["ok"]
         if kind in ("array2d", "kernel2d"):
             return r
@@ -2379,7 +3472,33 @@ class C16(PropertyCheck):
             if isinstance(model_obs, dict) and "err" in model_obs:
                 return f"model: {model_obs}"
             return self._hist_compare(case, impl_obs, model_obs, cmp)
+        if kind == "own":
+            if isinstance(model_obs, dict) and "err" in model_obs:
+                return f"model: {model_obs}"
+            for r, o in enumerate(impl_obs["rounds"]):
+                d = self.compare(case["base"], o, model_obs, cmp)
+                if d:
+                    return f"round {r}: {d}"
+            return None
+        if kind in ("opt_mask2d", "opt_1d"):
+            return cmp.diff(impl_obs["read"], model_obs["read"], "$.read")
+        if kind == "opt_imaging":
+            for k in ("data", "noise", "psf"):
+                for ik in (k, "im_" + k):
+                    if ik in impl_obs:
+                        if k not in model_obs:
+                            return f"$.{ik}: the implementation produced a {k} the model has none of"
+                        d = cmp.diff(impl_obs[ik], model_obs[k], "$." + ik)
+                        if d:
+                            return d
+            return None
         io = dict(impl_obs)
+        # (round 5) the HDU as astropy reads it back from the file must decode like the HDU that was written
+        fo = io.pop("from_open_hdu", None)
+        if fo is not None and isinstance(model_obs, dict) and "from_hdu" in model_obs:
+            d = cmp.diff(fo, model_obs["from_hdu"], "$.from_open_hdu")
+            if d:
+                return d
         if kind == "mask2d":
             for k in ("resized", "resized_ref", "from_file_scales"):
                 io.pop(k, None)
@@ -2420,6 +3539,15 @@ class C16(PropertyCheck):
         return None
 
     def oracle(self, case, obs):
+        try:
+            return self._oracle(case, obs)
+        except (ValueError, ZeroDivisionError) as e:
+            # "nan" / "inf" where a number is expected: never a legitimate output (inputs are finite)
+            if "Fraction" in str(e) or "nan" in str(e) or "inf" in str(e):
+                return False, f"the output holds non-finite numbers where the written values are expected ({e})"
+            raise
+
+    def _oracle(self, case, obs):
         if isinstance(obs, dict) and "err" in obs and len(obs) <= 2:
             return False, f"implementation raised {obs}"
         kind = case["kind"]
@@ -2428,6 +3556,21 @@ class C16(PropertyCheck):
             return self._hist_oracle(case, obs)
         if kind == "big":
             return self._big_oracle(case, obs)
+        if kind == "own":
+            for r, o in enumerate(obs["rounds"]):
+                ok, why = self.oracle(case["base"], o)
+                if not ok:
+                    return False, (f"round {r} (a fresh, equal world built after every array / HDU / header the API "
+                                   f"had returned or been given was overwritten in place): {why}")
+            return True, ""
+        if kind == "opt_mask2d":
+            return self._oracle_opt_mask2d(case, obs)
+        if kind == "opt_kernel":
+            return self._oracle_opt_kernel(case, obs)
+        if kind == "opt_imaging":
+            return self._oracle_opt_imaging(case, obs)
+        if kind == "opt_1d":
+            return self._oracle_opt_1d(case, obs)
         if kind in ("array2d", "kernel2d"):
             mj = case["mask"]
             h, w = mj["h"], mj["w"]
@@ -2441,10 +3584,11 @@ class C16(PropertyCheck):
             hs = self._scales_from_cards(obs["hdu"]["header"])
             if hs != scales:
                 return False, f"HDU header encodes pixel scales {hs}, object has {scales}"
-            for name in ("from_hdu", "from_file"):
-                d = self._check_read2d(name, obs[name], h, w, exp, scales)
-                if d:
-                    return False, d
+            for name in ("from_hdu", "from_file", "from_open_hdu"):
+                if name in obs:
+                    d = self._check_read2d(name, obs[name], h, w, exp, scales)
+                    if d:
+                        return False, d
             for k in ("sci", "hdu"):
                 if self._scales_from_cards(obs["file_headers"][k]) != scales:
                     return False, f"header ({k}) of the file does not carry the pixel scales written"
@@ -2464,6 +3608,11 @@ class C16(PropertyCheck):
                 return False, "mask read back from the HDU differs"
             if [Fraction(v) for v in obs["from_hdu"]["scales"]] != scales:
                 return False, f"mask read back from the HDU has pixel scales {obs['from_hdu']['scales']}"
+            if "from_open_hdu" in obs and (obs["from_open_hdu"]["mask"] != {"h": h, "w": w, "bits": mj["bits"]}
+                                           or [Fraction(v) for v in obs["from_open_hdu"]["scales"]] != scales):
+                return False, "mask read back from the HDU astropy loads from the written file differs"
+            if "from_file_scales" in obs and [Fraction(v) for v in obs["from_file_scales"]] != scales:
+                return False, f"mask read from the file has pixel scales {obs['from_file_scales']}, not the ones given"
             inv = case.get("invert", False)
             eb = "".join(("0" if c == "1" else "1") if inv else c for c in mj["bits"])
             if obs["from_file"] != {"h": h, "w": w, "bits": eb}:
@@ -2486,6 +3635,9 @@ class C16(PropertyCheck):
                 return False, "1-D array read back from the file differs"
             if (self._scales_from_cards(obs["file_headers"]) or [None])[0] != s:
                 return False, "1-D file header does not carry the pixel scale"
+            if "from_open_hdu" in obs and ([Fraction(v) for v in obs["from_open_hdu"]["native"]] != exp
+                                           or [Fraction(v) for v in obs["from_open_hdu"]["scales"]] != [s]):
+                return False, "1-D array read back from the HDU astropy loads from the written file differs"
             return True, ""
         if kind == "mask1d":
             s = Fraction(case["scale"])
@@ -2496,6 +3648,9 @@ class C16(PropertyCheck):
                 return False, "1-D mask read back differs"
             if [Fraction(v) for v in obs["from_hdu"]["scales"]] != [s]:
                 return False, "1-D mask pixel scale read back from the header differs"
+            if "from_open_hdu" in obs and (obs["from_open_hdu"]["bits"] != case["bits"]
+                                           or [Fraction(v) for v in obs["from_open_hdu"]["scales"]] != [s]):
+                return False, "1-D mask read back from the HDU astropy loads from the written file differs"
             return True, ""
         if kind == "multi_hdu":
             a = case["arrays"][case["read"]]
@@ -2551,9 +3706,106 @@ class C16(PropertyCheck):
             return True, ""
         return True, ""
 
+    # ---- round 5: oracles of the option kinds (independent restatement, Fractions only)
+    def _oracle_opt_mask2d(self, case, obs):
+        o = case["opts"]
+        mk = case["masks"][o["hdu"]]
+        mj = mk["mask"]
+        inv = bool(o.get("invert", False))
+        eb = "".join(("0" if c == "1" else "1") if inv else c for c in mj["bits"])
+        if obs["read"] != {"h": mj["h"], "w": mj["w"], "bits": eb}:
+            return False, (f"Mask2D.from_fits(hdu={o['hdu']}, invert={inv}) of a file of {len(case['masks'])} mask "
+                           f"HDUs did not return the mask written as HDU {o['hdu']}" + (" inverted" if inv else ""))
+        if [Fraction(v) for v in obs["scales"]] != [Fraction(v) for v in case["scales"]]:
+            return False, f"mask read from the file has pixel scales {obs['scales']}, not the ones given"
+        if "resized" in obs and obs["resized"] != obs["resized_ref"]:
+            return False, ("from_fits(resized_mask_shape=S, ...) != from_fits(...).resized_from(S) "
+                           f"(options {o})")
+        return True, ""
+
+    def _oracle_opt_kernel(self, case, obs):
+        mj = case["mask"]
+        h, w = mj["h"], mj["w"]
+        written, read = self._kernel_expected(case)
+        expw = self._native_expected(mj, written)
+        expr = self._native_expected(mj, read)
+        scales = [Fraction(v) for v in case["scales"]]
+        rows = [expw[y * w:(y + 1) * w] for y in range(h)]
+        want = rows[::-1] if case["flip"] else rows
+        what = (f"(constructor {case['ctor']}, normalize={case.get('ctor_normalize', 'default')}, "
+                f"store_native={case.get('store_native')})")
+        if [[Fraction(v) for v in r] for r in obs["hdu"]["data"]] != want:
+            return False, "kernel HDU data is not the kernel's native array " + what
+        if self._scales_from_cards(obs["hdu"]["header"]) != scales:
+            return False, "kernel HDU header does not carry the pixel scales"
+        d = self._check_read2d("from_hdu", obs["from_hdu"], h, w, expw, scales)
+        if d:
+            return False, d + " " + what
+        d = self._check_read2d(f"from_file (normalize={case.get('read_normalize', 'default')})", obs["from_file"],
+                               h, w, expr, scales)
+        if d:
+            return False, d + " " + what
+        return True, ""
+
+    def _oracle_opt_imaging(self, case, obs):
+        h, w = case["shape"]
+        scales = [Fraction(v) for v in case["scales"]]
+        has_psf = bool(case.get("psf"))
+        want_exists = {"data": True, "psf": bool(case["psf_path"] and has_psf), "noise": bool(case["noise_path"])}
+        if obs["exists"] != want_exists:
+            return False, (f"files on disk after Imaging.output_to_fits {obs['exists']}, expected {want_exists} "
+                           f"(psf_path given: {case['psf_path']}, noise_map_path given: {case['noise_path']})")
+        exp = {"data": [Fraction(v) for v in case["data"]], "noise": [Fraction(v) for v in case["noise"]]}
+        shapes = {"data": (h, w), "noise": (h, w)}
+        pe = self._imaging_psf_expected(case)
+        if pe is not None:
+            exp["psf"] = pe
+            shapes["psf"] = tuple(case["psf"]["shape"])
+        for k in ("data", "noise", "psf"):
+            for ik in (k, "im_" + k):
+                if ik in obs:
+                    if k not in exp:
+                        return False, f"{ik}: a PSF came back although the dataset has none"
+                    d = self._check_read2d(ik, obs[ik], shapes[k][0], shapes[k][1], exp[k], scales)
+                    if d:
+                        return False, d + (f" (use_normalized_psf={case.get('use_normalized_psf', 'default')})"
+                                           if k == "psf" else "")
+        if want_exists["noise"] and "noise" not in obs:
+            return False, "noise map file missing"
+        if want_exists["psf"] and "psf" not in obs:
+            return False, "psf file missing"
+        if "im_has_psf" in obs:
+            exp_psf = has_psf if case["route"] == "combined" else want_exists["psf"]
+            if obs["im_has_psf"] != exp_psf:
+                return False, f"Imaging.from_fits returned psf present={obs['im_has_psf']}, expected {exp_psf}"
+        return True, ""
+
+    def _oracle_opt_1d(self, case, obs):
+        k = case["opts"]["hdu"]
+        it = case["items"][k]
+        if it["kind"] == "mask1d":
+            if obs["read"] != it["bits"]:
+                return False, f"Mask1D.from_fits(hdu={k}) did not return the mask written as HDU {k}"
+        else:
+            itv = iter(it["values"])
+            exp = [Fraction(0) if c == "1" else Fraction(next(itv)) for c in it["bits"]]
+            if [Fraction(v) for v in obs["read"]] != exp:
+                return False, f"Array1D.from_fits(hdu={k}) did not return the array written as HDU {k}"
+            if (self._scales_from_cards(obs["hdu"]) or [None])[0] != Fraction(it["scale"]):
+                return False, "header of the HDU read does not carry that array's pixel scale"
+            if (self._scales_from_cards(obs["sci"]) or [None])[0] != Fraction(case["items"][0]["scale"]):
+                return False, "header of HDU 0 does not carry the first object's pixel scale"
+        if [Fraction(v) for v in obs["scales"]] != [Fraction(case["scale"])]:
+            return False, f"1-D object read from the file has pixel scales {obs['scales']}, not the one given"
+        return True, ""
+
     # ------------------------------------------------------------------ bookkeeping
     def nontrivial(self, case, obs):
         kind = case["kind"]
+        if kind == "own":
+            return True
+        if kind.startswith("opt_"):
+            return True
         if case.get("junk"):
             return True
         if kind == "hist":
@@ -2587,6 +3839,18 @@ class C16(PropertyCheck):
         kind = case["kind"]
         if kind == "big":
             yield from self._big_shrink(case)
+            return
+        if kind == "own":
+            for b2 in self.shrink(case["base"]):
+                yield {**case, "base": b2}
+            return
+        if kind == "opt_mask2d":
+            o = case["opts"]
+            for k in ("origin", "resized_mask_shape", "invert"):
+                if k in o:
+                    yield {**case, "opts": {kk: v for kk, v in o.items() if kk != k}}
+            if case.get("explicit_all"):
+                yield {**case, "explicit_all": False}
             return
         if kind == "hist":
             steps = case["steps"]
@@ -2631,8 +3895,14 @@ class C16(PropertyCheck):
 
     def theorems_for(self, case):
         kind = case["kind"]
+        if kind == "own":
+            return self.theorems_for(case["base"])
         if kind in ("hist", "big"):
             kind = {"array1d": "array1d", "mask1d": "mask1d", "mask2d": "mask2d"}.get(case["obj"], "array2d")
+        if kind == "opt_mask2d":
+            kind = "mask2d"
+        if kind == "opt_1d":
+            kind = case["items"][case["opts"]["hdu"]]["kind"]
         return {
             "fs_history": ["C16.history_semantics", "C16.output_overwrite_semantics", "C16.output_error_iff",
                            "C16.bare_name_cwd"],
